@@ -148,6 +148,7 @@ func cmdCheck(w *World, cfg *RunCfg, prop, replay string, t0 time.Time) int {
 	if prop == "C09" || prop == "C06" {
 		results = append(results, w.formatDelegation()...)
 	}
+	results = append(results, w.apiForwarding(prop)...)
 	if prop == "C01" || prop == "C11" || prop == "C12" {
 		results = append(results, w.registryTable(prop)...)
 	}
@@ -479,7 +480,7 @@ func propertyCarrying(name string) bool {
 		return false
 	}
 	k := name[i+1:]
-	for _, p := range []string{"post.", "assert.", "maintains.", "encoder.safe", "nilin.nilout", "inv.", "delegates", "LeafDecoder", "WrapperDecoder", "MultiCause", "LeafEncoder", "WrapperEncoder"} {
+	for _, p := range []string{"post.", "assert.", "maintains.", "encoder.safe", "nilin.nilout", "inv.", "delegates", "forwards", "LeafDecoder", "WrapperDecoder", "MultiCause", "LeafEncoder", "WrapperEncoder"} {
 		if strings.HasPrefix(k, p) {
 			return true
 		}
